@@ -44,12 +44,12 @@ use std::time::Duration;
 pub const META: PropMeta = PropMeta {
     id: "C17",
     level: "exploration",
-    rule: "case = payload (0..64 KiB, patterned) x SO_SNDBUF choice per direction x write/read chunk plans (plain or vectored, optional readable()/writable() await first) x topology (writer+reader tasks on two adapters; reader adapter fed synchronously; writer adapter drained synchronously; echo task alternating READ/WRITE on one adapter driven synchronously; echo task + ping-pong client task on two adapters) x scheduling order/gap x dispatch plan (count and timeout of dispatches per round) x injected spurious re-polls x injected abandoned waiters (an adapter operation first polled under a foreign waker, then under the task's own, before any dispatch) x blocking mode before adapt_io x adapter end (drop | into_inner; inside the task | after the tasks | after the loop was dropped). non-trivial: at least one WouldBlock on a write was observed (adapter poll_write Pending, or EAGAIN on the synchronous writer = payload larger than the send buffer) or an adapter switched its awaited interest (READ<->WRITE) at least once. distinct: by fingerprint of the normalised case",
+    rule: "case = payload (0..64 KiB, patterned) x SO_SNDBUF choice per direction x write/read chunk plans (plain or vectored, optional readable()/writable() await first) x topology (writer+reader tasks on two adapters; reader adapter fed synchronously; writer adapter drained synchronously; echo task alternating READ/WRITE on one adapter driven synchronously; echo task + ping-pong client task on two adapters) x scheduling order/gap x dispatch plan (count and timeout of dispatches per round) x injected spurious re-polls x injected abandoned waiters (an adapter operation first polled under a foreign waker, then under the task's own, before any dispatch) x an optional rejected second adapt_io on the fd of a live adapter before the session starts x blocking mode before adapt_io x adapter end (drop | into_inner; inside the task | after the tasks | after the loop was dropped). non-trivial: at least one WouldBlock on a write was observed (adapter poll_write Pending, or EAGAIN on the synchronous writer = payload larger than the send buffer) or an adapter switched its awaited interest (READ<->WRITE) at least once. distinct: by fingerprint of the normalised case",
     assumptions: &[
         "AF_UNIX SOCK_STREAM socketpair: poll(2) and epoll share the socket's poll function, so poll(2) readiness is the ground truth for what epoll must report after a one-shot re-arm",
         "a dispatch whose poller reports the executor's ping runs the woken task; hence two dispatches bound the distance from 'fd ready + interest armed' to 'task polled'",
         "single thread per case; the adapter's fd wrapper is non-owning so the harness controls close() and can read F_GETFL at any time",
-        "re-adapting an fd after into_inner and failing adapt_io are out of scope here (C16/C15, candidate findings F9/F10)",
+        "re-adapting an fd after into_inner is out of scope here (C16); a failing second adapt_io on a live adapter's fd is part of the session (the first adapter must keep working)",
     ],
 };
 
@@ -106,6 +106,10 @@ pub struct Case {
     pub end_b: u8,
     /// writer/client finishes with poll_flush + poll_close
     pub flush: bool,
+    /// bit 0 / bit 1: right after the A-side / B-side adapter was created, a second adapt_io on the same fd is
+    /// attempted (it must fail: the fd is already registered) and the session goes on with the first adapter
+    #[serde(default)]
+    pub dup_adapt: u8,
 }
 
 const SNDBUF: [i32; 3] = [1, 8192, 32768]; // 1 is clamped by the kernel to its minimum (4608)
@@ -813,6 +817,8 @@ struct Stats {
     eagain_sync: u64,
     switches: u64,
     spurious_used: u64,
+    dup_attempts: u32,
+    dup_ok: u32,
     foreign_used: u64,
     foreign_woken: u64,
     pre_awaits: u64,
@@ -931,11 +937,20 @@ fn run_inner(case: &Case) -> (Stats, Option<Violation>) {
     let mut a_task: Option<(Rc<TaskSt>, BoxFut)> = None;
     let mut b_task: Option<(Rc<TaskSt>, BoxFut)> = None;
     let mut early: Option<Violation> = None;
+    let mut dup_attempts = 0u32;
+    let mut dup_ok = 0u32;
 
     if a_adapted {
         let name = if n.topo == 4 { "client" } else { "writer" };
         let st = TaskSt::new(name, fa, &shared);
         let io: Io = handle.adapt_io(Sock { fd: fa, st: st.clone() }).expect("adapt_io(A)");
+        if case.dup_adapt & 1 != 0 {
+            dup_attempts += 1;
+            if let Ok(second) = handle.adapt_io(Sock { fd: fa, st: st.clone() }) {
+                dup_ok += 1;
+                drop(second);
+            }
+        }
         if !kernel::is_nonblocking(fa) {
             early = Some(viol("C17.flags", "live/after-adapt".into(), format!("O_NONBLOCK clear on fd right after adapt_io (was_nonblocking={})", case.pre_nb_a)));
         }
@@ -951,6 +966,13 @@ fn run_inner(case: &Case) -> (Stats, Option<Violation>) {
         let name = if n.topo >= 3 { "echo" } else { "reader" };
         let st = TaskSt::new(name, fb, &shared);
         let io: Io = handle.adapt_io(Sock { fd: fb, st: st.clone() }).expect("adapt_io(B)");
+        if case.dup_adapt & 2 != 0 {
+            dup_attempts += 1;
+            if let Ok(second) = handle.adapt_io(Sock { fd: fb, st: st.clone() }) {
+                dup_ok += 1;
+                drop(second);
+            }
+        }
         if !kernel::is_nonblocking(fb) && early.is_none() {
             early = Some(viol("C17.flags", "live/after-adapt".into(), format!("O_NONBLOCK clear on fd right after adapt_io (was_nonblocking={})", case.pre_nb_b)));
         }
@@ -1289,6 +1311,8 @@ fn run_inner(case: &Case) -> (Stats, Option<Violation>) {
         stats.eof_seen |= t.eof_seen.get();
     }
     stats.spurious_used = shared.used.get();
+    stats.dup_attempts = dup_attempts;
+    stats.dup_ok = dup_ok;
     stats.foreign_used = shared.fused.get();
     stats.foreign_woken = shared.fwoken.load(Ordering::Relaxed);
     stats.eagain_sync = sync.as_ref().map(|s| s.eagain_w).unwrap_or(0);
@@ -1331,6 +1355,12 @@ pub fn run_case(case: &Case) -> CaseOutcome {
     }
     if s.switches > 0 {
         info.classes.push("interest_switched_on_one_adapter");
+    }
+    if s.dup_attempts > 0 {
+        info.classes.push("second_adapt_io_on_live_adapter_fd_rejected");
+    }
+    if s.dup_ok > 0 {
+        info.classes.push("second_adapt_io_unexpectedly_accepted");
     }
     if s.foreign_used > 0 {
         info.classes.push("abandoned_waiter_then_own_poll");
@@ -1427,9 +1457,9 @@ fn case_strategy() -> impl Strategy<Value = Case> {
         0u8..=3,
         prop::collection::vec((0u8..=3, 0u8..=3), 1..=4),
     );
-    let ends = (any::<bool>(), any::<bool>(), 0u8..=5, 0u8..=5, any::<bool>());
+    let ends = (any::<bool>(), any::<bool>(), 0u8..=5, 0u8..=5, any::<bool>(), prop_oneof![3 => Just(0u8), 1 => 1u8..=3]);
     (payload, plans, sched, ends).prop_map(
-        |((topo, len, pat, sndbuf_a, sndbuf_b), (wops, rops, srv_r, srv_w, hops), ((spurious, foreign), b_first, gap, plan), (pre_nb_a, pre_nb_b, end_a, end_b, flush))| Case {
+        |((topo, len, pat, sndbuf_a, sndbuf_b), (wops, rops, srv_r, srv_w, hops), ((spurious, foreign), b_first, gap, plan), (pre_nb_a, pre_nb_b, end_a, end_b, flush, dup_adapt))| Case {
             topo,
             len,
             pat,
@@ -1450,6 +1480,7 @@ fn case_strategy() -> impl Strategy<Value = Case> {
             end_a,
             end_b,
             flush,
+            dup_adapt,
         },
     )
 }
@@ -1557,6 +1588,7 @@ fn case_from_bytes(data: &[u8]) -> Case {
         end_a: d.u8r(0, 5),
         end_b: d.u8r(0, 5),
         flush: d.bool(),
+        dup_adapt: if d.pickw(&[3, 1]) == 0 { 0 } else { d.u8r(1, 3) },
     }
 }
 
